@@ -458,10 +458,10 @@ type residentWG struct {
 type cuState struct {
 	agent    *agents.Agent
 	port     sim.Port
-	resident []*residentWG // accepted, not yet reported
-	toSend   []string      // timing style: finished, message not yet sent
-	finished []string      // emu style: finished, waiting for the batch
-	refused  int           // sends refused by the port (back-pressure)
+	resident []*residentWG  // accepted, not yet reported
+	toSend   []string       // timing style: finished, message not yet sent
+	finished []string       // emu style: finished, waiting for the batch
+	refused  int            // sends refused by the port (back-pressure)
 	src      sim.RemotePort // where mapping requests come from (the CP's ToCUs port)
 }
 
@@ -817,10 +817,10 @@ type traceInput struct {
 
 // analysis is the verdict of the trace oracle plus the classification.
 type analysis struct {
-	violation                                                  string
+	violation                                                 string
 	concurrent, waited, multiWf, partialWG, batchSpansKernels bool
-	cpOutFull                                                  bool
-	maxInFlight                                                int
+	cpOutFull                                                 bool
+	maxInFlight                                               int
 }
 
 // analyse replays the logged port events against the shadow allocator and
